@@ -65,6 +65,14 @@ def explorer_configs(tier):
              fctx=BOTH, steps=4 if t else 3, items=1, isolate=True, max=500 if t else 50),
         dict(name="mp-nil", prov="mp", kinds=dict(r1="periodicnil", r2="manual"), order=["r1", "r2"], sctx=BOTH,
              fctx=LIVE, steps=4 if t else 3, items=1, isolate=True, max=500 if t else 60),
+        # stock components and contexts that are already done: whatever Shutdown(cancelled) returns, after the settle
+        # window the exporter of every component that was shut down has been shut down (model: xsd = sd), exactly once
+        dict(name="lp-stock-canc", prov="lp", kinds=dict(q1="batch", q2="simple"), order=["q1", "q2"], sctx=BOTH, fctx=LIVE,
+             steps=4 if t else 3, items=1),
+        dict(name="mp-stock-canc", prov="mp", kinds=dict(r1="periodic", r2="periodic"), order=["r1", "r2"], sctx=BOTH, fctx=LIVE,
+             steps=4 if t else 3, items=1),
+        dict(name="tp-stock-canc-q", prov="tp", kinds=dict(p1="batch", p2="simple"), order=["p1", "p2"], sctx=BOTH, fctx=LIVE,
+             steps=3, items=1),
         # fault injection (op Fault): failing callbacks / external producers / exporters, processors and exporters
         # that return errors from Shutdown / ForceFlush -- everything is shut down exactly once all the same
         dict(name="mp-fault", prov="mp", kinds=dict(r1="manual", r2="periodic"), order=["r1", "r2"], sctx=LIVE, fctx=LIVE,
@@ -280,6 +288,30 @@ def judge_trace(ctx, tf, resf, label, kinds):
     return res
 
 
+def run_recorded(ctx, cmd, label, timeout):
+    """Run a recording mode of the harness. A process crash is real-code behaviour when it originates in an SDK
+    goroutine (first non-runtime frame of the crashing stack is an SDK frame): a `crash` violation; a crash in harness
+    code is a harness bug (inconclusive). Returns False when the trace is not usable."""
+    p = ctx.run(cmd, timeout=timeout, ok_codes=(0, 2))
+    if p.returncode == 0:
+        return True
+    frames = []
+    seen_panic = False
+    for ln in p.stderr.splitlines():
+        if ln.startswith(("panic:", "fatal error:")):
+            seen_panic = True
+        if seen_panic and ln and not ln.startswith(("\t", "goroutine ", "panic", "fatal", "[signal", "created by", "runtime.", "runtime/",
+                                                     "sync.", "sync/", "internal/", "reflect.")):
+            frames.append(ln.split("(")[0] if not ln.startswith("go.opentelemetry.io") else ln[:ln.rfind("(")])
+    first = frames[0] if frames else ""
+    if first.startswith("go.opentelemetry.io/otel/sdk/") and "/verifh/" not in first:
+        ctx.violation({"dir": "trace", "prov": label, "kind": "crash", "op": "", "x": first, "unk": False, "canc": False},
+                      replay={"source": label, "stderr_tail": p.stderr[-6000:]})
+        return False
+    from vlib import Inconclusive
+    raise Inconclusive("harness %s crashed outside the SDK (%s):\n%s" % (label, first, p.stderr[-3000:]))
+
+
 def run(ctx):
     thorough = ctx.tier == "thorough"
     binp = ctx.go_build("c15")
@@ -290,15 +322,16 @@ def run(ctx):
     # ---- directed schedules (incl. the D2/D3 gate scripts)
     t1 = os.path.join(ctx.work, "trace-directed.ndjson")
     r1 = os.path.join(ctx.work, "res-directed.json")
-    ctx.run([binp, "directed", "-out", t1, "-res", r1, "-reps", "2" if thorough else "1"], timeout=3000)
-    res1 = judge_trace(ctx, t1, r1, "directed", kinds)
+    EMPTY = {"counters": {}, "samples": [], "executed": 0}
+    ok1 = run_recorded(ctx, [binp, "directed", "-out", t1, "-res", r1, "-reps", "2" if thorough else "1"], "directed", 3000)
+    res1 = judge_trace(ctx, t1, r1, "directed", kinds) if ok1 else EMPTY
     # the D2/D3 gate schedules are the real-code regression of ada0bc0: End / ForceFlush past the stopped check
     # must RETURN after the drain. A call that parks forever again is a `hung` violation (reported above through
     # the contract; the D2/D3 entries of known_findings are "fixed" and suppress nothing -> exit 1). The gates
     # must have been reached for the schedules to mean anything (binding; otherwise inconclusive, never a verdict).
     c1 = res1["counters"]
     ctx.extra["bsp_race"] = {k: v for k, v in c1.items() if k.startswith("bsp_race")}
-    if c1.get("bsp_race_second_call_returned", 0) != c1.get("bsp_race_schedules", -1) and "hung" not in kinds:
+    if ok1 and c1.get("bsp_race_second_call_returned", 0) != c1.get("bsp_race_schedules", -1) and "hung" not in kinds:
         ctx.note_inconclusive("D2/D3 schedules: the gated End / ForceFlush neither returned nor was reported hung (%s, desync=%s)"
                               % (ctx.extra["bsp_race"], c1.get("directed_desync", 0)))
     # ---- re-entrant components: every cell of the matrix Reentry.tla enumerates, one subprocess per cell
@@ -320,8 +353,8 @@ def run(ctx):
     n = 20000 if thorough else 600
     t2 = os.path.join(ctx.work, "trace-random.ndjson")
     r2 = os.path.join(ctx.work, "res-random.json")
-    ctx.run([binp, "random", "-n", str(n), "-out", t2, "-res", r2], timeout=6000)
-    res2 = judge_trace(ctx, t2, r2, "random", kinds)
+    ok2 = run_recorded(ctx, [binp, "random", "-n", str(n), "-out", t2, "-res", r2], "random", 6000)
+    res2 = judge_trace(ctx, t2, r2, "random", kinds) if ok2 else EMPTY
     ctx.add_samples(res2["samples"][:1], cap=6)
     conc = {}
     for res in (res1, res2, res3):
